@@ -125,6 +125,22 @@ def PyVal.textOk : PyVal → Bool
   | .tuple vs => PyVals.all PyVal.strOk vs
   | v => v.strOk
 
+/-! every float is a 64-bit pattern (the model carries the IEEE-754 pattern of a Python float as a `Nat`) -/
+mutual
+  def PyVal.floatsOk : PyVal → Bool
+    | .float b => decide (b < 2 ^ 64)
+    | .dict kvs => kvs.floatsOk
+    | .list vs => vs.floatsOk
+    | .tuple vs => vs.floatsOk
+    | _ => true
+  def PyVals.floatsOk : PyVals → Bool
+    | .nil => true
+    | .cons v r => v.floatsOk && r.floatsOk
+  def PyKVs.floatsOk : PyKVs → Bool
+    | .nil => true
+    | .cons _ v r => v.floatsOk && r.floatsOk
+end
+
 def attrsAll (p : PyVal → Bool) (a : List (Text × PyVal)) : Bool := a.all (fun kv => p kv.2)
 def attrKeysOk (a : List (Text × PyVal)) : Bool := a.all (fun kv => kv.1.ok)
 
@@ -168,6 +184,9 @@ def _root_.Extracted.Wire.EventSnapshot.collectable (s : EventSnapshot) : Bool :
 
 def _root_.Extracted.Wire.EventSnapshot.intsFit (s : EventSnapshot) : Bool :=
   attrsAll PyVal.intsFit s.attributes && attrsAll PyVal.intsFit s.resource
+
+def _root_.Extracted.Wire.EventSnapshot.floatsOk (s : EventSnapshot) : Bool :=
+  attrsAll PyVal.floatsOk s.attributes && attrsAll PyVal.floatsOk s.resource
 
 /-! ### auth: provider → metadata → every request -/
 
